@@ -299,11 +299,12 @@ class Reader:
             old_value.replace_by(value)
         self.scopes[-1].value_map[value.name] = value
 
-    def find_value(self, name, ty=ir.i32):
+    def find_value(self, name, ty=None):
         """Try hard to find a value.
 
         If the value is undefined, create a placeholder undefined
-        value.
+        value. When the use at hand determines the type of the value,
+        the placeholder gets that type.
         """
         for scope in reversed(self.scopes):
             if name in scope.value_map:
@@ -312,8 +313,10 @@ class Reader:
         else:
             if name in self.undefined_values:
                 value = self.undefined_values[name]
+                if ty is not None:
+                    value.ty = ty
             else:
-                value = ir.Undefined(name, ty)
+                value = ir.Undefined(name, ir.ptr if ty is None else ty)
                 self.undefined_values[name] = value
         return value
 
@@ -342,8 +345,8 @@ class Reader:
                 # Go for binop
                 op = self.consume(self.peek)[1]
                 b = self.parse_id()
-                a = self.find_value(a)
-                b = self.find_value(b)
+                a = self.find_value(a, ty=ty)
+                b = self.find_value(b, ty=ty)
                 ins = ir.Binop(a, op, b, name, ty)
             elif a == "phi":
                 ins = ir.Phi(name, ty)
@@ -393,7 +396,7 @@ class Reader:
         elif self.peek == "-":
             self.consume("-")
             operation = "-"
-            a = self.parse_value_ref()
+            a = self.parse_value_ref(ty=ty)
             ins = ir.Unop(operation, a, name, ty)
         elif self.peek == "~":
             self.consume("~")
@@ -417,7 +420,7 @@ class Reader:
     def parse_id(self):
         return self.consume("ID")[1]
 
-    def parse_value_ref(self, ty=ir.ptr):
+    def parse_value_ref(self, ty=None):
         """Parse a reference to another variable."""
         return self.find_value(self.parse_id(), ty=ty)
 
